@@ -676,6 +676,35 @@ Proof.
     rewrite Hd. reflexivity.
 Qed.
 
+(** calendar-data without comp: the whole object *)
+Lemma u_caldata_nc_lex d e t' :
+  (d + 1 < MAXD)%N ->
+  match e with Some (s, e') => utc_ok s && utc_ok e' | None => true end = true ->
+  lexvar (w_caldata_nc e) t' ->
+  exists cd, u_cal_data_req d zero_wcd t' = Ok cd /\ decode_calendar_data_req cd = Ok (whole_cr e).
+Proof.
+  intros Hdl Hex Hl. apply lexvar_elem_inv in Hl. destruct Hl as (a' & k' & -> & Ha & Hk).
+  change (negb (pcdata (cn "calendar-data"))) with true in Hk.
+  unfold u_cal_data_req. rewrite chk_lt by lia. rewrite name_eqb_refl. cbn [negb].
+  rewrite fold_res_elems by apply wcd_kid_skip.
+  assert (Hk0 : forallb is_elem (opt_list w_expand_el e) = true) by (now destruct e).
+  destruct (kids_var_econtent _ _ Hk Hk0) as [_ Hf].
+  destruct e as [[s e']|]; cbn [opt_list] in Hf; inv_f2.
+  - apply andb_true_iff in Hex. destruct Hex as [Hs He].
+    match goal with H : lexvar (w_expand_el _) _ |- _ =>
+      pose proof H as Hl; apply (u_expand_lex (d + 1) _ _ _ ltac:(lia) Hs He) in H; rename H into Hue;
+      apply lexvar_elem_inv in Hl; destruct Hl as (a2 & k2 & -> & _) end.
+    cbn [fold_res wcd_kid].
+    change (local_is (cn "expand") "comp") with false.
+    change (local_is (cn "expand") "expand") with true. cbv iota.
+    cbn [wcd_expand wcd_comp zero_wcd opt_default]. rewrite Hue.
+    eexists. split; reflexivity.
+  - eexists. split; reflexivity.
+Qed.
+
+Lemma plain_caldata_nc e : plain_b (w_caldata_nc e) = true.
+Proof. destruct e as [[s e']|]; reflexivity. Qed.
+
 (** written trees carry no declarations or foreign attributes *)
 Lemma plain_comp_sel c : plain_b (w_comp_sel c) = true.
 Proof.
@@ -696,21 +725,26 @@ Qed.
 Lemma dprop_kid_skip d w t : is_elem t = false -> dprop_kid d w t = Ok w.
 Proof. destruct t; cbn; [discriminate | reflexivity | reflexivity]. Qed.
 
-Lemma u_dprop_lex d c t' :
-  (d + 2 < MAXD)%N -> (1 + need_comp c < MAXD)%N ->
-  valid_cr c = true -> lexvar (w_dprop c) t' ->
+(** DAV:prop around any calendar-data element [X] whose variants decode to [c] *)
+Definition caldata_for (X : xtree) (c : comp_request) : Prop :=
+  (exists a0 k0, X = Elem (cn "calendar-data") a0 k0) /\ plain_b X = true
+  /\ forall t', lexvar X t' ->
+      exists cd, u_cal_data_req 0 zero_wcd t' = Ok cd /\ decode_calendar_data_req cd = Ok c.
+
+Lemma u_dprop_x_lex d X c t' :
+  caldata_for X c -> (d + 2 < MAXD)%N -> lexvar (w_dprop_x X) t' ->
   exists raws, u_dprop d [] t' = Ok raws /\ decode_prop_caldata (Some raws) = Ok c.
 Proof.
-  intros Hdl Hnc Hv Hl. apply lexvar_elem_inv in Hl. destruct Hl as (a' & k' & -> & Ha & Hk).
+  intros ((a0 & k0 & ->) & Hpl & HX) Hdl Hl. apply lexvar_elem_inv in Hl. destruct Hl as (a' & k' & -> & Ha & Hk).
   change (negb (pcdata (dn "prop"))) with true in Hk.
   unfold u_dprop. rewrite chk_lt by lia. rewrite name_eqb_refl. cbn [negb].
   rewrite fold_res_elems by apply dprop_kid_skip.
   destruct (kids_var_econtent _ _ Hk eq_refl) as [_ Hf]. inv_f2.
   match goal with H : lexvar (Elem (dn "getetag") _ _) _ |- _ =>
     apply lexvar_elem_inv in H; destruct H as (a1 & k1 & -> & _) end.
-  match goal with H : lexvar (w_caldata c) _ |- _ =>
-    pose proof H as Hl; apply lexvar_strip in H; [|apply plain_caldata];
-    apply (u_caldata_lex 0 c _ ltac:(lia) Hv) in H; destruct H as (cd & Hu & Hd);
+  match goal with H : lexvar (Elem (cn "calendar-data") a0 k0) _ |- _ =>
+    pose proof H as Hl; apply lexvar_strip in H; [|exact Hpl];
+    apply HX in H; destruct H as (cd & Hu & Hd);
     apply lexvar_elem_inv in Hl; destruct Hl as (a2 & k2 & -> & _) end.
   cbn [fold_res dprop_kid app]. rewrite !chk_lt by lia. cbv beta iota. eexists. split; [reflexivity |].
   unfold decode_prop_caldata.
@@ -722,6 +756,26 @@ Proof.
   change (name_eqb (dn "getetag") (cn "calendar-data")) with false. rewrite name_eqb_refl. cbv iota.
   rewrite Hu. exact Hd.
 Qed.
+
+Lemma caldata_for_comp c : (1 + need_comp c < MAXD)%N -> valid_cr c = true -> caldata_for (w_caldata c) c.
+Proof.
+  intros Hn Hv. split; [unfold w_caldata; eauto |]. split; [apply plain_caldata |].
+  intros t' Hl. apply (u_caldata_lex 0 c _ ltac:(lia) Hv Hl).
+Qed.
+
+Lemma caldata_for_nc e :
+  match e with Some (s, e') => utc_ok s && utc_ok e' | None => true end = true ->
+  caldata_for (w_caldata_nc e) (whole_cr e).
+Proof.
+  intros He. split; [unfold w_caldata_nc; eauto |]. split; [apply plain_caldata_nc |].
+  intros t' Hl. apply (u_caldata_nc_lex 0 e _ ltac:(reflexivity) He Hl).
+Qed.
+
+Lemma u_dprop_lex d c t' :
+  (d + 2 < MAXD)%N -> (1 + need_comp c < MAXD)%N ->
+  valid_cr c = true -> lexvar (w_dprop c) t' ->
+  exists raws, u_dprop d [] t' = Ok raws /\ decode_prop_caldata (Some raws) = Ok c.
+Proof. intros Hd Hn Hv Hl. exact (u_dprop_x_lex d _ c t' (caldata_for_comp c Hn Hv) Hd Hl). Qed.
 
 Lemma filter_kid_skip d w t : is_elem t = false -> filter_kid d w t = Ok w.
 Proof. destruct t; cbn; [discriminate | reflexivity | reflexivity]. Qed.
@@ -791,23 +845,30 @@ Qed.
 Lemma MAXD_big : (16 < MAXD)%N.
 Proof. reflexivity. Qed.
 
-Theorem server_denotes path r doc :
-  valid href_fmt href_parse r = true -> fits_request r = true ->
-  lexvar (rfc_write href_fmt r) doc ->
+Definition valid_rest (r : request) : bool :=
+  match r with
+  | RQuery q => valid_cf (q_cf q)
+  | RMultiget m => negb (Nat.eqb (List.length (mg_paths m)) 0) && forallb (valid_path href_fmt href_parse) (mg_paths m)
+  end.
+Definition fits_rest (r : request) : bool :=
+  match r with RQuery q => N.ltb (2 + need_cf (q_cf q)) MAXD | RMultiget _ => true end.
+
+Theorem server_denotes_x path r X doc :
+  caldata_for X (req_cr r) -> valid_rest r = true -> fits_rest r = true ->
+  lexvar (rfc_write_x href_fmt X r) doc ->
   handle_report href_parse path doc = Ok (backend_call_of path r).
 Proof.
   pose proof MAXD_big as HM.
-  intros Hv Hfit Hl. destruct r as [q|m]; cbn [rfc_write valid backend_call_of fits_request] in *.
-  - unfold rfc_write_query in Hl. apply andb_true_iff in Hv. destruct Hv as [Hcr Hcf].
-    apply andb_true_iff in Hfit. destruct Hfit as [Hf1 Hf2]. apply N.ltb_lt in Hf1, Hf2.
+  intros HX Hv Hfit Hl. destruct r as [q|m]; cbn [rfc_write_x valid_rest fits_rest backend_call_of req_cr] in *.
+  - rename Hv into Hcf. apply N.ltb_lt in Hfit.
     apply lexvar_elem_inv in Hl. destruct Hl as (a' & k' & -> & Ha & Hk).
     change (negb (pcdata (cn "calendar-query"))) with true in Hk.
     unfold handle_report. rewrite name_eqb_refl. unfold u_calendar_query. rewrite chk_lt by lia.
     rewrite name_eqb_refl. cbn [negb].
     rewrite fold_res_elems by apply wq_kid_skip.
     destruct (kids_var_econtent _ _ Hk eq_refl) as [_ Hf]. inv_f2.
-    match goal with H : lexvar (w_dprop _) _ |- _ =>
-      pose proof H as Hl; apply (u_dprop_lex (0 + 1) (q_cr q) _ ltac:(lia) Hf1 Hcr) in H; destruct H as (raws & Hu & Hd);
+    match goal with H : lexvar (w_dprop_x _) _ |- _ =>
+      pose proof H as Hl; apply (u_dprop_x_lex (0 + 1) X (q_cr q) _ HX ltac:(lia)) in H; destruct H as (raws & Hu & Hd);
       apply lexvar_elem_inv in Hl; destruct Hl as (a1 & k1 & -> & _) end.
     match goal with H : lexvar (Elem (cn "filter") _ _) _ |- _ =>
       pose proof H as Hl; apply (u_filter_lex (0 + 1) (q_cf q) _ ltac:(lia) Hcf) in H; destruct H as (wf & Huf & Hdf);
@@ -819,23 +880,72 @@ Proof.
     change (local_is (cn "filter") "filter") with true. cbv iota.
     cbn [wq_filter zero_wq]. rewrite Huf.
     unfold handle_query. cbn [wq_prop wq_filter]. rewrite Hd, Hdf. now destruct q.
-  - unfold rfc_write_multiget in Hl.
-    apply andb_true_iff in Hv. destruct Hv as [Hv Hps]. apply andb_true_iff in Hv. destruct Hv as [Hcr Hne].
-    apply N.ltb_lt in Hfit.
+  - apply andb_true_iff in Hv. destruct Hv as [Hne Hps].
     apply lexvar_elem_inv in Hl. destruct Hl as (a' & k' & -> & Ha & Hk).
     change (negb (pcdata (cn "calendar-multiget"))) with true in Hk.
     unfold handle_report.
     change (name_eqb (cn "calendar-multiget") (cn "calendar-query")) with false.
     rewrite name_eqb_refl. unfold u_multiget. rewrite chk_lt by lia. rewrite name_eqb_refl. cbn [negb].
     rewrite fold_res_elems by apply wm_kid_skip.
-    assert (Hk0 : forallb is_elem (w_dprop (mg_cr m) :: map (w_href href_fmt) (mg_paths m)) = true).
+    assert (Hk0 : forallb is_elem (w_dprop_x X :: map (w_href href_fmt) (mg_paths m)) = true).
     { cbn. now apply forallb_map_elem. }
     destruct (kids_var_econtent _ _ Hk Hk0) as [_ Hf]. inversion Hf as [|x y l l' Hx Hl]; subst. clear Hf.
-    pose proof Hx as Hx'. apply (u_dprop_lex (0 + 1) (mg_cr m) _ ltac:(lia) Hfit Hcr) in Hx. destruct Hx as (raws & Hu & Hd).
+    pose proof Hx as Hx'. apply (u_dprop_x_lex (0 + 1) X (mg_cr m) _ HX ltac:(lia)) in Hx. destruct Hx as (raws & Hu & Hd).
     apply lexvar_elem_inv in Hx'. destruct Hx' as (a1 & k1 & -> & _).
     cbn [fold_res wm_kid]. rewrite name_eqb_refl. cbn [wm_prop zero_wm opt_default]. rewrite Hu.
     rewrite (fold_hrefs 0 _ ltac:(lia) Hps _ _ Hl). cbn [wm_prop wm_hrefs zero_wm app].
     unfold handle_multiget. cbn [wm_prop wm_hrefs]. rewrite Hd. reflexivity.
+Qed.
+
+Lemma valid_split r :
+  valid href_fmt href_parse r = true -> valid_cr (req_cr r) = true /\ valid_rest r = true.
+Proof.
+  destruct r as [q|m]; cbn [valid req_cr valid_rest]; intros H.
+  - apply andb_true_iff in H. exact H.
+  - apply andb_true_iff in H. destruct H as [H Hps]. apply andb_true_iff in H. destruct H as [Hcr Hne].
+    split; [exact Hcr |]. now rewrite Hne, Hps.
+Qed.
+
+Lemma fits_split r :
+  fits_request r = true -> (1 + need_comp (req_cr r) < MAXD)%N /\ fits_rest r = true.
+Proof.
+  destruct r as [q|m]; cbn [fits_request req_cr fits_rest]; intros H.
+  - apply andb_true_iff in H. destruct H as [H1 H2]. apply N.ltb_lt in H1. auto.
+  - apply N.ltb_lt in H. auto.
+Qed.
+
+Lemma rfc_write_as_x r : rfc_write href_fmt r = rfc_write_x href_fmt (w_caldata (req_cr r)) r.
+Proof. destruct r; reflexivity. Qed.
+
+Theorem server_denotes path r doc :
+  valid href_fmt href_parse r = true -> fits_request r = true ->
+  lexvar (rfc_write href_fmt r) doc ->
+  handle_report href_parse path doc = Ok (backend_call_of path r).
+Proof.
+  intros Hv Hfit Hl. rewrite rfc_write_as_x in Hl.
+  destruct (valid_split _ Hv) as [Hcr Hr]. destruct (fits_split _ Hfit) as [Hn Hfr].
+  exact (server_denotes_x path r _ doc (caldata_for_comp _ Hn Hcr) Hr Hfr Hl).
+Qed.
+
+(** the same request written without comp (possible when it asks for the whole object) *)
+Lemma whole_eq c : is_whole c = true -> c = whole_cr (cr_expand c).
+Proof.
+  destruct c as [nm ap ps ac cs ex]. cbn. intros H.
+  repeat (apply andb_true_iff in H; destruct H as [H ?]).
+  apply str_empty_spec in H. destruct ps; [|discriminate]. destruct cs; [|discriminate]. now subst.
+Qed.
+
+Theorem server_denotes_nc path r doc :
+  valid href_fmt href_parse r = true -> fits_request r = true -> is_whole (req_cr r) = true ->
+  lexvar (rfc_write_nc href_fmt r) doc ->
+  handle_report href_parse path doc = Ok (backend_call_of path r).
+Proof.
+  intros Hv Hfit Hw Hl. unfold rfc_write_nc in Hl.
+  destruct (valid_split _ Hv) as [Hcr Hr]. destruct (fits_split _ Hfit) as [Hn Hfr].
+  apply (server_denotes_x path r (w_caldata_nc (cr_expand (req_cr r))) doc); try assumption.
+  rewrite (whole_eq _ Hw) at 2. apply caldata_for_nc.
+  unfold valid_cr in Hcr. apply andb_true_iff in Hcr. destruct Hcr as [_ He].
+  destruct (cr_expand (req_cr r)) as [[s e]|]; assumption.
 Qed.
 
 End Top.
